@@ -353,7 +353,8 @@ func c17EnumerateUDP(sh *evidence.Shard) {
 		names = append(names, fmt.Sprintf("%s(%dB)", s.Name, len(s.Data)))
 	}
 	p1.Alphabet = map[string]any{"samples": names, "port_filter": []string{"nil", "contains the port", "excludes the port"}, "rewrite_domain": []bool{true, false},
-		"req_addr": []string{"10.1.2.3:443", "[2001:db8::7]:443", "orig.example.net:443"}}
+		"req_addr": []string{"10.1.2.3:443", "[2001:db8::7]:443", "orig.example.net:443"},
+		"port_spellings": "nil filter, RewriteDomain: the three hosts x ports {0,65535,65536,65616,131152,-1,0443,+80,4294967376}"}
 	for _, s := range samples {
 		for _, cfg := range c17Configs() {
 			if !mine() {
@@ -361,6 +362,16 @@ func c17EnumerateUDP(sh *evidence.Shard) {
 			}
 			c := &c17UDPCase{Kind: "sample", Name: s.Name, Data: s.Data, ExpHost: s.ExpHost, Filter: cfg.Filter, RD: cfg.RD, Addr: net.JoinHostPort(cfg.Host, "443")}
 			run1(p1, c, "")
+		}
+		// every spelling of the port strconv.Atoi accepts (see the TCP part; seeded change C17-6)
+		for _, port := range []string{"0", "65535", "65536", "65616", "131152", "-1", "0443", "+80", "4294967376"} {
+			for _, host := range []string{"10.1.2.3", "2001:db8::7", "orig.example.net"} {
+				if !mine() {
+					continue
+				}
+				c := &c17UDPCase{Kind: "sample", Name: s.Name, Data: s.Data, ExpHost: s.ExpHost, Filter: "nil", RD: true, Addr: net.JoinHostPort(host, port), Note: "port=" + port}
+				run1(p1, c, "")
+			}
 		}
 	}
 
